@@ -89,6 +89,26 @@ REQUIRE = {  # about 1/20 of what one quick run observes on an idle machine (the
     "cmap_route:global_then_copy": 8,
     "keys_sent_that_the_users_map_unbound": 30,
     "keys_sent_that_the_users_map_rebound": 10,
+    "invalid_pos:float-integral-in-range": 15,
+    "invalid_pos:fraction-integral": 6,
+    "invalid_pos:complex-integral": 6,
+    "invalid_pos:decimal-integral": 6,
+    "invalid_pos:huge-int": 10,
+    "invalid_pos:tuple": 5,
+    "clause:indexlike_assign_consistent": 15,
+    "clause:set_focus_path_indexlike": 5,
+    "set_focus_path_invalid_with_exotic_element": 4,
+    "assign_via:set_focus": 15,
+    "assign_via:walker": 12,
+    "assign_walker:slw:invalid": 8,
+    "assign_walker:sflw:invalid": 8,
+    "assign_walker:plain:invalid": 4,
+    "directed:frame-empty-part": 4,
+    "directed:pile-unselectable-any-key": 4,
+    "directed:cache-lost-dependency": 4,
+    "directed:grid-focus-on-empty-cell": 4,
+    "directed:overlay-top-replaced": 4,
+    "directed:grid-selectable-after-edit": 4,
     "kind:pile": 6000,
     "kind:cols": 5000,
     "kind:grid": 4500,
@@ -125,7 +145,9 @@ ASSUMES = [
     "ListBox is excluded from 'arrow keys move focus only onto selectable children': the manual documents that a scrolling ListBox picks unselectable widgets as focus",
     "a key offered to a widget that is on the focus path at the moment of the offer but was not before the key is accepted only when the paths diverge at a ListBox (documented deferred focus completion)",
     "keys are sent to the root only while root.selectable() is true, with the size of the last render (as MainLoop does); the root is always box-sized",
-    "a float/str/None position counts as an invalid position (set_focus_path docstring: 'incompatible position types ... will raise an IndexError')",
+    "a float/str/None position counts as an invalid position (set_focus_path docstring: 'incompatible position types ... will raise an IndexError'); so do numbers that merely EQUAL an index (1.0, Fraction(1), complex(1,0), Decimal(1)), tuples and huge ints",
+    "values Python itself accepts as a list index (bool, int subclass, object with __index__) may be rejected with IndexError or accepted; if accepted the focus must equal that index and be valid (measured: bool and int subclasses are accepted, __index__ objects rejected); for Overlay any value == 1 is treated the same way",
+    "walker.set_focus(x) on an EMPTY SimpleFocusListWalker is silently ignored: documented in MonitoredFocusList.focus",
     "Frame body is never removed (documented as required); Frame focus_part is never constructed naming a missing part",
     "histories in which urwid emits a WidgetWarning are cut at that op and the op is not judged (library-defined input domain)",
     "leaf selectability is constant; a parent's selectable() is judged only right after ITS OWN contents were edited",
@@ -341,9 +363,66 @@ def urwid_frame(exc) -> str:
     return name
 
 
+class IndexObj:
+    """numpy-like scalar: not an int, but usable as a list index through __index__"""
+
+    def __init__(self, n):
+        self.n = n
+
+    def __index__(self):
+        return self.n
+
+    def __repr__(self):
+        return f"IndexObj({self.n})"
+
+
+class IntSub(int):
+    """a genuine int (subclass)"""
+
+
+def decode_pos(p):
+    """JSON op value -> Python position; ["$kind", n] encodes values JSON cannot carry"""
+    if isinstance(p, list) and len(p) == 2 and isinstance(p[0], str) and p[0].startswith("$"):
+        import decimal
+        import fractions
+
+        k, n = p
+        return {
+            "$float": lambda: float(n),
+            "$fraction": lambda: fractions.Fraction(n),
+            "$complex": lambda: complex(n, 0),
+            "$decimal": lambda: decimal.Decimal(n),
+            "$bool": lambda: bool(n),
+            "$index": lambda: IndexObj(n),
+            "$intsub": lambda: IntSub(n),
+            "$huge": lambda: n * 2**70,
+            "$tuple": lambda: (n,),
+        }[k]()
+    return p
+
+
 def postype(kind, pos, n_children):
+    import decimal
+    import fractions
+
     if isinstance(pos, bool):
         return "bool"
+    if isinstance(pos, IntSub):
+        return "int-subclass"
+    if isinstance(pos, IndexObj):
+        return "index-object"
+    if isinstance(pos, fractions.Fraction):
+        return "fraction-integral"
+    if isinstance(pos, decimal.Decimal):
+        return "decimal-integral"
+    if isinstance(pos, complex):
+        return "complex-integral"
+    if isinstance(pos, tuple):
+        return "tuple"
+    if isinstance(pos, int) and abs(pos) >= 2**64:
+        return "huge-int"
+    if isinstance(pos, float) and pos == int(pos) and kind != "frame":
+        return "float-integral-in-range" if (0 <= pos < n_children or (kind == "overlay" and pos == 1)) else "float-integral-out-of-range"
     if isinstance(pos, int):
         if kind == "overlay":
             return f"overlay-{pos}" if pos in (0, 2) else "int-out-of-range"
@@ -487,8 +566,6 @@ class Session:
         return {k: v[:2] for k, v in a.items()} == {k: v[:2] for k, v in b.items()}
 
     def model_valid_pos(self, n, pos):
-        if isinstance(pos, bool):
-            return False
         if n.kind in LISTLIKE:
             return isinstance(pos, int) and 0 <= pos < len(n.ch)
         if n.kind == "frame":
@@ -496,6 +573,26 @@ class Session:
         if n.kind == "overlay":
             return isinstance(pos, int) and pos == 1
         return False
+
+    def assign_expectation(self, n, pos):
+        """'valid' (must be taken) | 'invalid' (must raise IndexError, nothing changes) | 'either' (Python itself treats the
+        value as an index - bool, int subclass, __index__ object - or, for Overlay, the value equals the only position 1:
+        it may be rejected with IndexError or accepted, and if accepted the focus must be valid and equal to it)"""
+        if type(pos) is int or isinstance(pos, str) or pos is None:
+            return "valid" if self.model_valid_pos(n, pos) else "invalid"
+        if n.kind == "frame":
+            return "invalid"
+        if isinstance(pos, (bool, IntSub, IndexObj)):
+            i = pos.__index__()
+            if n.kind == "overlay":
+                return "either" if i == 1 and not isinstance(pos, IndexObj) else "invalid"
+            return "either" if 0 <= i < len(n.ch) else "invalid"
+        if n.kind == "overlay":
+            try:
+                return "either" if pos == 1 else "invalid"
+            except Exception:  # noqa: BLE001
+                return "invalid"
+        return "invalid"
 
     def model_child(self, n, pos):
         if n.kind in LISTLIKE:
@@ -946,57 +1043,124 @@ class Session:
             self.c("mouse_presses_that_moved_focus")
         self.check_all("mouse")
 
-    def op_focus(self, cid, pos):
+    def op_focus(self, cid, pos, via="prop"):
         n = self.find(cid)
         if n is None:
             self.c("op_skipped_detached")
             return
+        pos = decode_pos(pos)
         K = KIND_NAME[n.kind]
-        valid = self.model_valid_pos(n, pos)
+        if n.kind != "list":
+            via = "prop"
+        expect = self.assign_expectation(n, pos)
+        empty_walker = via == "walker" and not n.ch
         before = self.snapshot()
         exc = None
         try:
-            n.base.focus_position = pos
+            if via == "prop":
+                n.base.focus_position = pos
+            elif via == "set_focus":
+                n.base.set_focus(pos)
+            else:  # the walker's own API
+                n.base.body.set_focus(pos)
         except Exception as e:  # noqa: BLE001
             exc = e
         after = self.snapshot()
-        if valid:
+        route = "" if via == "prop" else f"|via:{via}"
+        what = {"prop": "focus_position=", "set_focus": "set_focus", "walker": "body.set_focus"}[via]
+        self.c(f"assign_via:{via}")
+        if n.kind == "list":
+            self.c(f"assign_walker:{n.rec['walker']}:{expect}")
+        if empty_walker:
+            # MonitoredFocusList.focus docstring: "...except when the list is empty and the index passed is ignored"
+            self.c("walker_set_focus_on_empty_list")
+            if not self.snap_eq(before, after):
+                self.v(f"C08|{K}|body.set_focus-on-empty|changed-focus-state", f"{K} cid={n.cid}: {before[n.cid][:1]} -> {after[n.cid][:1]}")
+        elif expect == "valid":
             self.c("clause:valid_assign_taken")
             if exc is not None:
-                self.v(f"C08|{K}|focus_position=valid|raise:{type(exc).__name__}", f"{K} cid={n.cid} children {n.children()}: focus_position={pos!r} raised {type(exc).__name__}: {exc}")
+                self.v(f"C08|{K}|focus_position=valid|raise:{type(exc).__name__}{route}", f"{K} cid={n.cid} children {n.children()}: {what}{pos!r} raised {type(exc).__name__}: {exc}")
             elif after[n.cid][0] != pos:
-                self.v(f"C08|{K}|focus_position=valid|not-taken", f"{K} cid={n.cid}: assigned {pos!r}, reads back {after[n.cid][0]!r}")
+                self.v(f"C08|{K}|focus_position=valid|not-taken{route}", f"{K} cid={n.cid}: assigned {pos!r}, reads back {after[n.cid][0]!r}")
+        elif expect == "either":
+            pt = postype(n.kind, pos, len(n.children()))
+            self.c("clause:indexlike_assign_consistent")
+            self.c(f"indexlike_pos:{pt}:{'rejected' if exc is not None else 'accepted'}")
+            if exc is not None:
+                if not isinstance(exc, IndexError):
+                    self.v(f"C08|{K}|focus_position=indexlike:{pt}|raise:{type(exc).__name__}{route}", f"{K} cid={n.cid}: {what}{pos!r} raised {type(exc).__name__}: {exc}")
+                if not self.snap_eq(before, after):
+                    self.v(f"C08|{K}|focus_position=indexlike:{pt}|rejected-but-changed-focus-state{route}", f"{K} cid={n.cid}: {what}{pos!r}: {before[n.cid][:1]} -> {after[n.cid][:1]}")
+            else:
+                got = after[n.cid][0]
+                want = 1 if n.kind == "overlay" else pos.__index__()
+                try:
+                    same = got == want
+                except Exception:  # noqa: BLE001
+                    same = False
+                if not same:
+                    self.v(f"C08|{K}|focus_position=indexlike:{pt}|accepted-but-focus-differs{route}", f"{K} cid={n.cid}: {what}{pos!r} accepted, focus_position reads back {got!r}")
+                # the invariant walk below judges that the accepted value left a valid focus
         else:
             pt = postype(n.kind, pos, len(n.children()))
             self.c("clause:invalid_assign_rejected")
             self.c(f"invalid_pos:{pt}")
             if exc is None:
-                self.v(f"C08|{K}|focus_position=invalid:{pt}|accepted", f"{K} cid={n.cid} children {n.children()}: focus_position={pos!r} was accepted; reads back {after[n.cid][0]!r}")
+                self.v(f"C08|{K}|focus_position=invalid:{pt}|accepted{route}", f"{K} cid={n.cid} children {n.children()}: {what}{pos!r} was accepted; reads back {after[n.cid][0]!r}")
+                self.check_all("focus-set")
                 self.stop = "state-corrupted-by-reported-violation"
                 return
             elif not isinstance(exc, IndexError):
-                self.v(f"C08|{K}|focus_position=invalid:{pt}|raise:{type(exc).__name__}", f"{K} cid={n.cid} children {n.children()}: focus_position={pos!r} raised {type(exc).__name__}: {exc}")
+                self.v(f"C08|{K}|focus_position=invalid:{pt}|raise:{type(exc).__name__}{route}", f"{K} cid={n.cid} children {n.children()}: {what}{pos!r} raised {type(exc).__name__}: {exc}")
             if not self.snap_eq(before, after):
-                self.v(f"C08|{K}|focus_position=invalid:{pt}|changed-focus-state", f"{K} cid={n.cid}: focus_position={pos!r}: {before[n.cid][:1]} -> {after[n.cid][:1]}")
+                self.v(f"C08|{K}|focus_position=invalid:{pt}|changed-focus-state{route}", f"{K} cid={n.cid}: {what}{pos!r}: {before[n.cid][:1]} -> {after[n.cid][:1]}")
         self.check_all("focus-set")
 
     def model_path_valid(self, path):
+        return self.path_expectation(path) == "valid"
+
+    def path_expectation(self, path):
+        """'valid' | 'invalid' | 'either'.  set_focus_path skips the assignment when `p == w.focus_position`, so an element
+        that is not a position but compares equal to the current one (1.0 == 1) may pass silently: 'either'."""
         n = self.root
+        overall = "valid"
         for p in path:
-            if n is None or n.kind == "leaf" or not self.model_valid_pos(n, p):
-                return False
+            if n is None or n.kind == "leaf":
+                return "invalid"
+            e = self.assign_expectation(n, p)
+            if e == "invalid":
+                try:
+                    cur = n.base.focus_position
+                    same = (type(p) is not int and not isinstance(p, str) and p is not None) and p == cur
+                except Exception:  # noqa: BLE001
+                    return "invalid"
+                if not same:
+                    return "invalid"
+                overall = "either"
+                p = cur
+                if not self.model_valid_pos(n, p):
+                    return "invalid"
+            elif e == "either":
+                overall = "either"
+                p = 1 if n.kind == "overlay" else p.__index__()
             n = self.model_child(n, p)
-        return True
+        return overall
 
     def op_path(self, path):
-        valid = self.model_path_valid(path)
+        path = [decode_pos(p) for p in path]
+        expect = self.path_expectation(path)
+        valid = expect == "valid"
         rb = self.root.base
         exc = None
         try:
             rb.set_focus_path(path)
         except Exception as e:  # noqa: BLE001
             exc = e
-        if valid:
+        if expect == "either":
+            self.c("clause:set_focus_path_indexlike")
+            if exc is not None and not isinstance(exc, IndexError):
+                self.v(f"C08|api|set_focus_path(indexlike)|raise:{type(exc).__name__}|in:{urwid_frame(exc)}", f"set_focus_path({path!r}) raised {type(exc).__name__}: {exc}")
+        elif valid:
             self.c("clause:set_focus_path_valid")
             if exc is not None:
                 self.v(f"C08|api|set_focus_path(valid)|raise:{type(exc).__name__}|in:{urwid_frame(exc)}", f"set_focus_path({path!r}) raised {type(exc).__name__}: {exc}")
@@ -1006,8 +1170,12 @@ class Session:
                     self.v("C08|api|set_focus_path(valid)|not-taken", f"set_focus_path({path!r}) then get_focus_path()={got!r}")
         else:
             self.c("clause:set_focus_path_invalid")
+            kinds = sorted({postype("pile", p, 99) for p in path if not (type(p) is int or isinstance(p, str) or p is None)})
+            tag = f"|with:{'+'.join(kinds)}" if kinds else ""
+            if kinds:
+                self.c("set_focus_path_invalid_with_exotic_element")
             if exc is None:
-                self.v("C08|api|set_focus_path(invalid)|accepted", f"set_focus_path({path!r}) was accepted; get_focus_path()={rb.get_focus_path()!r}")
+                self.v(f"C08|api|set_focus_path(invalid)|accepted{tag}", f"set_focus_path({path!r}) was accepted; get_focus_path()={rb.get_focus_path()!r}")
             elif not isinstance(exc, IndexError):
                 self.v(f"C08|api|set_focus_path(invalid)|raise:{type(exc).__name__}|in:{urwid_frame(exc)}", f"set_focus_path({path!r}) raised {type(exc).__name__}: {exc}")
         self.check_all("path-set")
@@ -1297,7 +1465,7 @@ class Session:
         elif k == "mouse":
             self.op_mouse(op[1], op[2])
         elif k == "focus":
-            self.op_focus(op[1], op[2])
+            self.op_focus(op[1], op[2], op[3] if len(op) > 3 else "prop")
         elif k == "path":
             self.op_path(op[1])
         elif k == "save":
@@ -1489,10 +1657,22 @@ def run_case(ctx, case, stop_after=None):
 
 # ====================================================================== op generation (online, from the shadow model)
 
+def _exotic(r, n):
+    """a value that is numerically the in-range index n but is not an int"""
+    return r.choice([["$float", n], ["$float", n], ["$fraction", n], ["$complex", n], ["$decimal", n]])
+
+
+def _indexlike(r, n):
+    return r.choice([["$bool", n % 2], ["$index", n], ["$intsub", n]])
+
+
 INVALID_POS = {
-    "listlike": lambda r, L: r.choice([L, L + 3, -1, -L - 1, None, "x", (L - 1) + 0.5 if L else 0.5, 0.5, "body"]),
-    "frame": lambda r, L: r.choice(["top", 0, None, "Header", 1.5]),
-    "overlay": lambda r, L: r.choice([0, 2, -1, "x", None]),
+    "listlike": lambda r, L: r.choice(
+        [L, L + 3, -1, -L - 1, None, "x", (L - 1) + 0.5 if L else 0.5, 0.5, "body", ["$huge", 1], ["$huge", -1], ["$tuple", 0]]
+        + ([_exotic(r, r.randrange(L)) for _ in range(8)] + [_indexlike(r, r.randrange(L)) for _ in range(3)] if L else [["$float", 0], ["$bool", 0]])
+    ),
+    "frame": lambda r, L: r.choice(["top", 0, None, "Header", 1.5, ["$float", 1], ["$bool", 1], ["$tuple", 0]]),
+    "overlay": lambda r, L: r.choice([0, 2, -1, "x", None, ["$float", 1], ["$float", 0], ["$bool", 1], ["$bool", 0], ["$fraction", 1], ["$complex", 1], ["$decimal", 1], ["$index", 1], ["$intsub", 1]]),
 }
 
 
@@ -1543,14 +1723,22 @@ def gen_op(rng, gen, s: Session):
         if n.kind in LISTLIKE:
             if not n.ch:
                 return ["focus", n.cid, 0]
+            if n.kind == "list" and rng.random() < 0.3:
+                return ["focus", n.cid, rng.randrange(len(n.ch)), rng.choice(["set_focus", "walker"])]
             return ["focus", n.cid, rng.randrange(len(n.ch))]
         if n.kind == "frame":
             return ["focus", n.cid, rng.choice([p for p in ("header", "body", "footer") if n.parts.get(p) is not None])]
         return ["focus", n.cid, 1]
     if x < 0.62:  # invalid focus assignment
         n = rng.choice(conts)
+        lists = [c for c in conts if c.kind == "list" and c.ch]
+        if lists and rng.random() < 0.35:
+            n = rng.choice(lists)
         if n.kind in LISTLIKE:
-            return ["focus", n.cid, INVALID_POS["listlike"](rng, len(n.ch))]
+            op = ["focus", n.cid, INVALID_POS["listlike"](rng, len(n.ch))]
+            if n.kind == "list":
+                op.append(rng.choice(["prop", "prop", "set_focus", "walker"]))
+            return op
         if n.kind == "frame":
             missing = [p for p in ("header", "footer") if n.parts.get(p) is None]
             if missing and rng.random() < 0.5:
@@ -1577,7 +1765,10 @@ def gen_op(rng, gen, s: Session):
                     path.append(99)
             else:
                 i = rng.randrange(len(path))
-                path[i] = rng.choice([99, -1, "nope", None])
+                if isinstance(path[i], int) and rng.random() < 0.5:
+                    path[i] = rng.choice([_exotic(rng, path[i]), _exotic(rng, path[i]), _indexlike(rng, path[i])])
+                else:
+                    path[i] = rng.choice([99, -1, "nope", None])
         return ["path", path]
     if x < 0.78:
         if s.saved is None or (x < 0.70 and rng.random() < 0.5):
@@ -1670,6 +1861,8 @@ def gen_history(ctx, rng, nops):
     case = {"tree": gen.root(), "ops": [], "cmap": gen_cmap(rng) if rng.random() < 0.3 else False}
     if gen.navbias:
         ctx.count("directed_form_histories")
+    if getattr(gen, "directed", None):
+        ctx.count(f"directed:{gen.directed}")
     gen.cap = MAX_SID
     with Env() as env:
         cm = install_cmap(env.u, cmap_spec(case))
@@ -1688,11 +1881,16 @@ def gen_history(ctx, rng, nops):
                 return case, s
         ops = case["ops"]
         first = ["render", rng.randrange(len(SIZES))]
-        if rng.random() < 0.8:
+        if rng.random() < 0.8 and not getattr(gen, "script", None):
             ops.append(first)
             if not s.step(first):
                 return case, s
         done = 0
+        for op in getattr(gen, "script", None) or []:
+            ops.append(op)
+            done += 1
+            if not s.step(op):
+                return case, s
         while done < nops:
             op = gen_op(rng, gen, s)
             ops.append(op)
